@@ -60,6 +60,12 @@ TNext == /\ l <= Len(TraceLog)
                                   /\ viol' = (IF bad = {} THEN viol ELSE viol \cup {<<l, "sync", bad>>})
                                   /\ mirror' = [u \in Users |-> ObsMirror(e, u)] /\ last' = [op |-> "sync"] /\ mconf' = confirmed
                                   /\ UNCHANGED <<dirPw, srv, row, confirmed, since, dbOut>>
+              \* the htpasswd file back-end: the verdict is the file's, as the file is now
+              [] e.ev = "htlogin" -> LET bad == Failed({<<"G_C07_Directory", e.out.accepted => e.out.fileaccepts>>,
+                                                        <<"G_C07_MustAccept", e.out.fileaccepts => e.out.accepted>>}) IN
+                                     /\ viol' = (IF bad = {} THEN viol ELSE viol \cup {<<l, "htlogin", bad>>})
+                                     /\ last' = [op |-> "htlogin"] /\ UNCHANGED <<dirPw, srv, row, confirmed, since, mirror, mconf, dbOut>>
+              [] e.ev = "htfile" -> last' = [op |-> "htfile"] /\ UNCHANGED <<dirPw, srv, row, confirmed, since, mirror, viol, mconf, dbOut>>
               \* a restart (or another instance over the same stores) changes nothing the specification knows of
               [] e.ev = "restart" -> last' = [op |-> "restart"] /\ UNCHANGED <<dirPw, srv, row, confirmed, since, mirror, viol, mconf, dbOut>>
               [] e.ev = "dboutage" -> dbOut' = TRUE /\ last' = [op |-> "dboutage"] /\ UNCHANGED <<dirPw, srv, row, confirmed, since, mirror, viol, mconf>>
